@@ -30,6 +30,10 @@ type source struct {
 	Text       string   `json:"text"`
 	Args       []string `json:"args,omitempty"`
 	MustReject bool     `json:"must_reject"` // an operand cannot fit by the tool's own arithmetic
+	// immediate ROM / RAM addresses the source mentions: if a machine is emitted, each must be representable in
+	// the address width the tool itself chose for that machine (O resp. L of processor 0)
+	RomAddrs []int `json:"rom_addrs,omitempty"`
+	RamAddrs []int `json:"ram_addrs,omitempty"`
 }
 
 func basmProgram(rsize int, lines []string, ins, outs []int) string {
@@ -59,23 +63,23 @@ func basmSweep(thorough bool) []source {
 	lens := []int{1, 2, 3, 4, 5, 8, 9, 16, 17, 32, 33, 64, 65}
 	for _, rs := range rsizes {
 		for _, r := range idx {
-			out = append(out, source{"basm", "register-index", basmProgram(rs, []string{fmt.Sprintf("inc r%d", r), "j _start"}, nil, nil), nil, false})
-			out = append(out, source{"basm", "register-index", basmProgram(rs, []string{fmt.Sprintf("rset r%d, 1", r), fmt.Sprintf("cpy r0, r%d", r), "r2o r0, o0", "j _start"}, nil, []int{0}), nil, false})
+			out = append(out, source{"basm", "register-index", basmProgram(rs, []string{fmt.Sprintf("inc r%d", r), "j _start"}, nil, nil), nil, false, nil, nil})
+			out = append(out, source{"basm", "register-index", basmProgram(rs, []string{fmt.Sprintf("rset r%d, 1", r), fmt.Sprintf("cpy r0, r%d", r), "r2o r0, o0", "j _start"}, nil, []int{0}), nil, false, nil, nil})
 		}
-		out = append(out, source{"basm", "register-index", basmProgram(rs, []string{"inc r256", "j _start"}, nil, nil), nil, false})
+		out = append(out, source{"basm", "register-index", basmProgram(rs, []string{"inc r256", "j _start"}, nil, nil), nil, false, nil, nil})
 		for _, k := range idx {
 			if k > 32 {
 				continue
 			}
-			out = append(out, source{"basm", "input-index", basmProgram(rs, []string{fmt.Sprintf("i2r r0, i%d", k), "j _start"}, []int{k}, nil), nil, false})
-			out = append(out, source{"basm", "output-index", basmProgram(rs, []string{fmt.Sprintf("r2o r0, o%d", k), "j _start"}, nil, []int{k}), nil, false})
+			out = append(out, source{"basm", "input-index", basmProgram(rs, []string{fmt.Sprintf("i2r r0, i%d", k), "j _start"}, []int{k}, nil), nil, false, nil, nil})
+			out = append(out, source{"basm", "output-index", basmProgram(rs, []string{fmt.Sprintf("r2o r0, o%d", k), "j _start"}, nil, []int{k}), nil, false, nil, nil})
 			// all ports up to k attached
 			var all []int
 			for j := 0; j <= k; j++ {
 				all = append(all, j)
 			}
-			out = append(out, source{"basm", "input-index", basmProgram(rs, []string{fmt.Sprintf("i2r r0, i%d", k), "j _start"}, all, nil), nil, false})
-			out = append(out, source{"basm", "output-index", basmProgram(rs, []string{fmt.Sprintf("r2o r0, o%d", k), "j _start"}, nil, all), nil, false})
+			out = append(out, source{"basm", "input-index", basmProgram(rs, []string{fmt.Sprintf("i2r r0, i%d", k), "j _start"}, all, nil), nil, false, nil, nil})
+			out = append(out, source{"basm", "output-index", basmProgram(rs, []string{fmt.Sprintf("r2o r0, o%d", k), "j _start"}, nil, all), nil, false, nil, nil})
 		}
 		for _, l := range lens {
 			var lines []string
@@ -83,12 +87,12 @@ func basmSweep(thorough bool) []source {
 				lines = append(lines, "inc r0")
 			}
 			lines = append(lines, "j _start")
-			out = append(out, source{"basm", "program-length", basmProgram(rs, lines, nil, nil), nil, false})
+			out = append(out, source{"basm", "program-length", basmProgram(rs, lines, nil, nil), nil, false, nil, nil})
 			// jump to a label on the last instruction
 			lines2 := append([]string{}, lines[:len(lines)-1]...)
 			lines2 = append(lines2, "jz r0, last")
 			lines2 = append(lines2, "last:\n\tj last")
-			out = append(out, source{"basm", "program-length", basmProgram(rs, lines2, nil, nil), nil, false})
+			out = append(out, source{"basm", "program-length", basmProgram(rs, lines2, nil, nil), nil, false, nil, nil})
 		}
 		one := new(strings.Builder)
 		_ = one
@@ -103,12 +107,12 @@ func basmSweep(thorough bool) []source {
 			max, over = "18446744073709551615", nil
 		}
 		for _, v := range []string{"0", "1", "2", max, "0x0f", "0b101"} {
-			out = append(out, source{"basm", "immediate", basmProgram(rs, []string{"rset r0, " + v, "r2o r0, o0", "j _start"}, nil, []int{0}), nil, false})
-			out = append(out, source{"basm", "immediate", basmProgram(rs, []string{"mov r0, " + v, "r2o r0, o0", "j _start"}, nil, []int{0}), nil, false})
+			out = append(out, source{"basm", "immediate", basmProgram(rs, []string{"rset r0, " + v, "r2o r0, o0", "j _start"}, nil, []int{0}), nil, false, nil, nil})
+			out = append(out, source{"basm", "immediate", basmProgram(rs, []string{"mov r0, " + v, "r2o r0, o0", "j _start"}, nil, []int{0}), nil, false, nil, nil})
 		}
 		for _, v := range over {
-			out = append(out, source{"basm", "immediate-wider-than-register", basmProgram(rs, []string{"rset r0, " + v, "r2o r0, o0", "j _start"}, nil, []int{0}), nil, true})
-			out = append(out, source{"basm", "immediate-wider-than-register", basmProgram(rs, []string{"mov r0, " + v, "r2o r0, o0", "j _start"}, nil, []int{0}), nil, true})
+			out = append(out, source{"basm", "immediate-wider-than-register", basmProgram(rs, []string{"rset r0, " + v, "r2o r0, o0", "j _start"}, nil, []int{0}), nil, true, nil, nil})
+			out = append(out, source{"basm", "immediate-wider-than-register", basmProgram(rs, []string{"mov r0, " + v, "r2o r0, o0", "j _start"}, nil, []int{0}), nil, true, nil, nil})
 		}
 		// ROM data sections: code length × number of data cells around the powers of two (the ROM depth is
 		// inferred from code + data); one variable with k values and the `k:db` repetition form
@@ -126,7 +130,7 @@ func basmSweep(thorough bool) []source {
 				for _, decl := range []string{"tab db " + strings.Join(vals, ", "), fmt.Sprintf("big %d:db 0x7f", k)} {
 					src := basmProgram(rs, lines, nil, nil)
 					src = strings.Replace(src, "%meta cpdef p0 romcode: prog, ramsize:8", "%section consts .romdata\n\t"+decl+"\n%endsection\n\n%meta cpdef p0 romcode: prog, romdata: consts", 1)
-					out = append(out, source{"basm", "code-length×rom-data-cells", src, nil, false})
+					out = append(out, source{"basm", "code-length×rom-data-cells", src, nil, false, nil, nil})
 				}
 			}
 		}
@@ -141,7 +145,7 @@ func basmSweep(thorough bool) []source {
 				for _, decl := range []string{fmt.Sprintf("big %d:db 0x7f", k), fmt.Sprintf("one db 0x01\n\tbig %d:db 0x7f", k)} {
 					src := basmProgram(rs, lines, nil, nil)
 					src = strings.Replace(src, "%meta cpdef p0 romcode: prog, ramsize:8", "%section consts .romdata\n\t"+decl+"\n%endsection\n\n%meta cpdef p0 romcode: prog, romdata: consts", 1)
-					out = append(out, source{"basm", "jump-widest×rom-data-cells", src, nil, false})
+					out = append(out, source{"basm", "jump-widest×rom-data-cells", src, nil, false, nil, nil})
 				}
 			}
 		}
@@ -165,8 +169,30 @@ func basmSweep(thorough bool) []source {
 						src := basmProgram(rs, rb, nil, outs)
 						src = strings.Replace(src, "%meta cpdef p0 romcode: prog, ramsize:8",
 							"%section rcode .ramtext iomode:async\n\tentry _rs\n_rs:\n\t"+strings.Join(ram, "\n\t")+"\n%endsection\n\n%meta cpdef p0 romcode: prog, ramcode: rcode, execmode: "+mode, 1)
-						out = append(out, source{"basm", "rom-code+ram-code", src, nil, false})
+						out = append(out, source{"basm", "rom-code+ram-code", src, nil, false, nil, nil})
 					}
+				}
+			}
+		}
+		// immediate ROM / RAM addresses at and beyond the memory the tool sizes from the program itself, in programs
+		// with and without a wider instruction (rset) whose slack could absorb an over-wide address field
+		for _, c := range []int{3, 4, 6, 8, 14} {
+			for _, k := range []int{1, 3, 4, 7, 8, 9, 15, 16, 17, 31, 32, 64, 255, 256} {
+				for _, wide := range []bool{false, true} {
+					var lines []string
+					if wide {
+						lines = append(lines, "rset r0, 1")
+					} else {
+						lines = append(lines, "inc r0")
+					}
+					lines = append(lines, fmt.Sprintf("mov r1, rom:%d", k))
+					for len(lines) < c-1 {
+						lines = append(lines, "inc r0")
+					}
+					lines = append(lines, "j _start")
+					out = append(out, source{FrontEnd: "basm", Class: "rom-address", Text: basmProgram(rs, lines, nil, nil), RomAddrs: []int{k}})
+					lines[1] = fmt.Sprintf("mov r1, ram:%d", k)
+					out = append(out, source{FrontEnd: "basm", Class: "ram-address", Text: basmProgram(rs, lines, nil, nil), RamAddrs: []int{k}})
 				}
 			}
 		}
@@ -178,7 +204,7 @@ func basmSweep(thorough bool) []source {
 					lines = append(lines, fmt.Sprintf("inc r%d", r))
 				}
 				lines = append(lines, "j _start")
-				out = append(out, source{"basm", "register-index×program-length", basmProgram(rs, lines, nil, nil), nil, false})
+				out = append(out, source{"basm", "register-index×program-length", basmProgram(rs, lines, nil, nil), nil, false, nil, nil})
 			}
 		}
 	}
@@ -207,11 +233,11 @@ func bondgoSweep(thorough bool) []source {
 				fmt.Fprintf(&sb, "\tv0 = v0 + v%d\n", i)
 			}
 			sb.WriteString("\tbondgo.IOWrite(out0, v0)\n}\n")
-			out = append(out, source{"bondgo", "variable-count", sb.String(), []string{"-register-size", fmt.Sprint(rs)}, false})
+			out = append(out, source{"bondgo", "variable-count", sb.String(), []string{"-register-size", fmt.Sprint(rs)}, false, nil, nil})
 			// register-resident variables
 			t := strings.ReplaceAll(sb.String(), "v", "reg_v")
 			t = strings.ReplaceAll(t, "reg_var", "var")
-			out = append(out, source{"bondgo", "register-variable-count", t, []string{"-register-size", fmt.Sprint(rs)}, false})
+			out = append(out, source{"bondgo", "register-variable-count", t, []string{"-register-size", fmt.Sprint(rs)}, false, nil, nil})
 		}
 	}
 	return out
@@ -231,9 +257,9 @@ func neuralSweep(thorough bool) []source {
 	if err != nil {
 		return nil
 	}
-	out := []source{{"neuralbond", "example-net", string(b), nil, false}, {"neuralbond", "example-net", string(b), []string{"-chooser-min-word-size"}, false}}
+	out := []source{{"neuralbond", "example-net", string(b), nil, false, nil, nil}, {"neuralbond", "example-net", string(b), []string{"-chooser-min-word-size"}, false, nil, nil}}
 	if b2, err := os.ReadFile("/repo/cmd/neuralbond/net-testnormal.json"); err == nil && thorough {
-		out = append(out, source{"neuralbond", "example-net", string(b2), nil, false})
+		out = append(out, source{"neuralbond", "example-net", string(b2), nil, false, nil, nil})
 	}
 	var net map[string]any
 	if json.Unmarshal(b, &net) != nil {
@@ -268,8 +294,8 @@ func neuralSweep(thorough bool) []source {
 			}
 		}
 		jb, _ := json.Marshal(map[string]any{"Nodes": nodes, "Weights": weights})
-		out = append(out, source{"neuralbond", "layer-width", string(jb), nil, false})
-		out = append(out, source{"neuralbond", "layer-width", string(jb), []string{"-chooser-min-word-size"}, false})
+		out = append(out, source{"neuralbond", "layer-width", string(jb), nil, false, nil, nil})
+		out = append(out, source{"neuralbond", "layer-width", string(jb), []string{"-chooser-min-word-size"}, false, nil, nil})
 	}
 	return out
 }
@@ -293,7 +319,7 @@ func quantumSweep(thorough bool) []source {
 				fmt.Fprintf(&sb, "\tcx\tq0, q%d\n", n-1)
 			}
 			sb.WriteString("%endblock\n\n%meta bmdef global main:code1\n")
-			out = append(out, source{"bmqsim", "qubit-count", sb.String(), []string{"-hw-flavor", flavor}, false})
+			out = append(out, source{"bmqsim", "qubit-count", sb.String(), []string{"-hw-flavor", flavor}, false, nil, nil})
 		}
 	}
 	return out
@@ -498,6 +524,18 @@ func evaluate(s source) verdict {
 	}
 	v.accepted = true
 	v.fails = wf(bm)
+	if bm != nil && len(bm.Domains) > 0 && bm.Domains[0] != nil {
+		for _, a := range s.RomAddrs {
+			if a >= 1<<bm.Domains[0].O {
+				v.fails = append(v.fails, wfFail{"address-beyond-the-memory-accepted", fmt.Sprintf("the source reads ROM cell %d, the emitted machine has %d ROM cells (O=%d)", a, 1<<bm.Domains[0].O, bm.Domains[0].O)})
+			}
+		}
+		for _, a := range s.RamAddrs {
+			if a >= 1<<bm.Domains[0].L {
+				v.fails = append(v.fails, wfFail{"address-beyond-the-memory-accepted", fmt.Sprintf("the source accesses RAM cell %d, the emitted machine has %d RAM cells (L=%d)", a, 1<<bm.Domains[0].L, bm.Domains[0].L)})
+			}
+		}
+	}
 	if s.MustReject {
 		v.fails = append(v.fails, wfFail{"unfittable-source-accepted", "the source mentions an operand that cannot fit (" + s.Class + ") but a machine was emitted"})
 	}
